@@ -79,6 +79,20 @@ def gen_project(r, npkgs=None, features=None):
                         pkg["co"]["script"]["tools"].append(d)
     if "defines" in f and r.random() < 0.3:
         proj["defines"][r.choice(VARS)] = r.choice(VALUES)
+    if "tools" in f and "coscript" in f and n >= 2 and r.random() < 0.3:
+        # a deterministic script-only checkout that uses a tool built from import sources: the only thing that
+        # re-runs it after a source edit of the tool is the "dependency changed" rule
+        root, dep = proj["pkgs"][names[0]], proj["pkgs"][names[1]]
+        if names[1] not in root["deps"]:
+            root["deps"].insert(0, names[1])
+        dep["tool"] = dep["tool"] or {"path": "b1"}
+        if not (dep["co"] and dep["co"]["import"]):
+            dep["co"] = {"import": True, "dir": ".", "url": "src/" + names[1],
+                         "files": {names[1] + ".id": names[1], "a.txt": "a1"}, "script": None}
+        if names[1] not in root["useTools"]:
+            root["useTools"].append(names[1])
+        root["co"] = {"import": False, "files": {}, "script": {"id": 1, "det": True, "vars": [], "tools": [names[1]]}}
+        proj["cotool"] = names[1]
     return proj
 
 
@@ -95,6 +109,8 @@ def edit(r, proj, history, kinds=None):
     for _ in range(30):
         kind = r.choice(kinds or EDIT_KINDS)
         name = r.choice(names)
+        if p.get("cotool") in names and kinds is None and r.random() < 0.25:
+            kind, name = r.choice(["src-modify", "src-add"]), p["cotool"]
         pkg = p["pkgs"][name]
         idx = names.index(name)
         ser = p["serial"]
